@@ -142,11 +142,17 @@ class FinishedPdu(AbstractFileDirectiveBase):
         :raises ValueError: TLV type is not a filestore response
         :return:
         """
+        old_file_store_responses = self._params.file_store_responses
         if file_store_responses is None:
             self._params.file_store_responses = []
         else:
             self._params.file_store_responses = file_store_responses
-        self._calculate_directive_field_len()
+        try:
+            self._calculate_directive_field_len()
+        except ValueError:
+            # Refused (data field too large): leave the PDU as it was
+            self._params.file_store_responses = old_file_store_responses
+            raise
 
     @property
     def file_store_responses_len(self):
@@ -167,8 +173,14 @@ class FinishedPdu(AbstractFileDirectiveBase):
         """Setter function for the fault location.
         :raises ValueError: Type ID is not entity ID (0x06)
         """
+        old_fault_location = self._params.fault_location
         self._params.fault_location = fault_location
-        self._calculate_directive_field_len()
+        try:
+            self._calculate_directive_field_len()
+        except ValueError:
+            # Refused (data field too large): leave the PDU as it was
+            self._params.fault_location = old_fault_location
+            raise
 
     def _calculate_directive_field_len(self):
         base_len = 1
